@@ -9,6 +9,7 @@ static unsigned char inbuf[1 << 17]; static size_t inlen;
 static unsigned char base_out[OUTCAP]; static runres base;
 static long runs, nontrivial, cuts_total;
 static int is_bcj;
+static uint64_t tin_cap;	// > 0: the coder was told the exact compressed size and must never consume more than that
 static h_set obs;
 
 typedef lzma_ret (*initfn)(lzma_stream *, int);
@@ -25,7 +26,8 @@ static void one(lzma_ret (*init)(lzma_stream *, int), int kind, const plan *p, s
 	if (r.ret != base.ret) { diff = 1; why = "status"; }
 	else if (r.tin != base.tin) { diff = 1; why = "total_in"; }
 	else if (!(is_bcj && base.ret != LZMA_STREAM_END) && (r.tout != base.tout || memcmp(d_out, base_out, (size_t)base.tout))) { diff = 1; why = "output"; }
-	if (r.weird) { diff = 1; why = r.weird == 1 ? "stalls-with-LZMA_OK" : "too-many-calls"; }
+	if (tin_cap && r.tin > tin_cap) { diff = 1; why = "consumed-more-than-the-declared-compressed-size"; }
+	if (r.weird) { diff = 1; why = r.weird == 1 ? "stalls-with-LZMA_OK" : r.weird == 3 ? "wrote-or-read-outside-the-offered-window" : "too-many-calls"; }
 	if (diff) {
 		char key[160]; snprintf(key, sizeof key, "slice:%s:%s:%s", what, cur_label, why);
 		for (char *c = key; *c; c++) if (*c == ' ') *c = '_';
@@ -44,6 +46,7 @@ static void sweep(lzma_ret (*init)(lzma_stream *, int), int kind, int thorough, 
 	if (base.tout > OUTCAP - 16) return;	// too large for this harness
 	memcpy(base_out, d_out, (size_t)base.tout);
 	note_obs(&base);
+	if (tin_cap && base.tin > tin_cap) { h_fail("slice:baseline:consumed-more-than-the-declared-compressed-size", "unsliced run consumed %llu bytes, declared compressed size %llu, coder=%s input=%s", (unsigned long long)base.tin, (unsigned long long)tin_cap, cur_label, cur_name); return; }
 	if (base.weird) { h_fail("slice:baseline", "unsliced run misbehaves (weird=%d) coder=%s input=%s", base.weird, cur_label, cur_name); return; }
 	if (base.tin > 0) nontrivial++;
 	size_t ocap = (size_t)base.tout + 64;	// enough room; also bounds the cost of 1-byte output runs
@@ -73,6 +76,8 @@ static void sweep(lzma_ret (*init)(lzma_stream *, int), int kind, int thorough, 
 static lzma_ret init_dec(lzma_stream *s, int kind) { return dec_init(s, kind, 0, UINT64_MAX); }
 static lzma_ret init_dec_tell(lzma_stream *s, int kind) { return dec_init(s, kind, LZMA_TELL_ANY_CHECK | LZMA_TELL_NO_CHECK | LZMA_TELL_UNSUPPORTED_CHECK, UINT64_MAX); }
 
+static size_t micro_comp, micro_uncomp;
+static lzma_ret init_micro(lzma_stream *s, int kind) { return lzma_microlzma_decoder(s, micro_comp, kind == 2 ? micro_uncomp - 3 : micro_uncomp, kind == 0, 4096); }
 // ---- encoders ----------------------------------------------------------------------------------
 enum { EK_EASY0, EK_EASY6, EK_LZMA2_BT4, EK_LZMA2_HC3, EK_DELTA, EK_X86, EK_ARM64_DELTA, EK_ALONE, EK_RAW1, EK_RAW2, EK_RAWDELTA, EK_RAWX86, EK_MT1, EK_INDEX3, EK_INDEX130, EK_INDEX10000, EK_N };
 static lzma_index *g_idx[3];
@@ -224,6 +229,16 @@ int main(int argc, char **argv) {
 				if (h_expired()) goto out;
 			}
 		}
+		// MicroLZMA decoder (its sizes come from the caller, not from a header): streams made by the MicroLZMA encoder followed by bytes that are NOT part of
+		// the stream, decoded with exact and inexact uncompressed size; how many bytes are consumed must not depend on the slicing either
+		for (int in = 0; in < 6; in++) for (int kind = 0; kind < 3; kind++) { if (idx++ % nsh != shard) continue;
+			static unsigned char plainm[64]; size_t pl = in == 0 ? 1 : in == 1 ? 12 : in == 2 ? 13 : in == 3 ? 33 : in == 4 ? 40 : 64; for (size_t i = 0; i < pl; i++) plainm[i] = in == 1 ? (unsigned char)"hello, world"[i] : (unsigned char)("abbabaab"[(i * (size_t)(in + 1)) % 8] + (i % 11 == 10));
+			lzma_options_lzma mo; lzma_lzma_preset(&mo, 1); mo.dict_size = 4096; lzma_stream e = LZMA_STREAM_INIT; if (lzma_microlzma_encoder(&e, &mo) != LZMA_OK) continue; e.next_in = plainm; e.avail_in = pl; e.next_out = inbuf; e.avail_out = 200; lzma_ret er = lzma_code(&e, LZMA_FINISH); micro_comp = e.total_out; micro_uncomp = e.total_in; lzma_end(&e); if (er != LZMA_STREAM_END || micro_uncomp != pl) continue;
+			for (size_t i = 0; i < 6; i++) inbuf[micro_comp + i] = (unsigned char)(i & 1 ? 0xFF : 0x00); inlen = micro_comp + 6; is_bcj = 0;
+			static char nmm[48], lab[48]; snprintf(nmm, sizeof nmm, "microlzma(%zu plain bytes)+6 foreign bytes", pl); cur_name = nmm; snprintf(lab, sizeof lab, "microlzma_decoder(%s)", kind == 0 ? "exact size" : kind == 1 ? "inexact, full size" : "inexact, size-3"); cur_label = lab; cur_kind = kind;
+			if (kind == 2 && pl < 4) continue;
+			tin_cap = micro_comp; sweep(init_micro, kind, thorough, "dec", 1 << 16); tin_cap = 0;
+			if (h_expired()) goto out; }
 	} else if (!strcmp(argv[1], "enc")) {
 		for (int vs = 0; vs < 2; vs++) for (int in = 0; in < 10; in++) for (int k = 0; k < EK_N; k++) {
 			if (idx++ % nsh != shard) continue;
